@@ -472,6 +472,7 @@ int32_t
 qb_rb_chunk_commit(struct qb_ringbuffer_s * rb, size_t len)
 {
 	uint32_t old_write_pt;
+	uint32_t new_write_pt;
 
 	if (rb == NULL) {
 		return -EINVAL;
@@ -483,9 +484,22 @@ qb_rb_chunk_commit(struct qb_ringbuffer_s * rb, size_t len)
 	rb->shared_data[old_write_pt] = len;
 
 	/*
+	 * The words at the new write position may still hold old payload.
+	 * Make sure they can never be mistaken for a committed chunk by a
+	 * reader that has caught up with the writer.  The margin kept by
+	 * qb_rb_chunk_alloc() guarantees that this word is not part of an
+	 * unread chunk; it is this chunk's own size word only when the chunk
+	 * fills the whole buffer, and then it cannot equal the magic.
+	 */
+	new_write_pt = qb_rb_chunk_step(rb, old_write_pt);
+	if (((new_write_pt + 1) % rb->shared_hdr->word_size) != old_write_pt) {
+		QB_RB_CHUNK_MAGIC_SET(rb, new_write_pt, QB_RB_CHUNK_MAGIC_DEAD);
+	}
+
+	/*
 	 * commit the new write pointer
 	 */
-	rb->shared_hdr->write_pt = qb_rb_chunk_step(rb, old_write_pt);
+	rb->shared_hdr->write_pt = new_write_pt;
 	QB_RB_CHUNK_MAGIC_SET(rb, old_write_pt, QB_RB_CHUNK_MAGIC);
 
 	DEBUG_PRINTF("commit [%zd] read: %u, write: %u -> %u (%u)\n",
